@@ -89,6 +89,10 @@ M = [
  ('sampler-local-time', 'stage.py', "        tlocal = t-ti\n", "        tlocal = t-time[k*M]\n", ['C08']),
  ('dc-poly-scale', 'direct_collocation.py', "            S = 1/repmat(hcat([dt**i for i in range(self.degree + 1)]), self.degree + 1, 1)", "            S = 1/repmat(hcat([(dt*self.M)**i for i in range(self.degree + 1)]), self.degree + 1, 1)", ['C08']),
  ('euler-poly', 'sampling_method.py', '        poly_coeff = hcat([X, k["ode"]])', '        poly_coeff = hcat([X, k["ode"]*DT/DT_control])', ['C08']),
+ # --- C16
+ ('der-drops-dt', 'stage.py', 'vertcat(ode(x=self.x, u=self.u, z=self.z, p=vertcat(self.p, self.v), t=self.t)["ode"], 1, *der_symbols))', 'vertcat(ode(x=self.x, u=self.u, z=self.z, p=vertcat(self.p, self.v), t=self.t)["ode"], 0, *der_symbols))', ['C16']),
+ ('der-ode-at-t0', 'stage.py', '                return jtimes(expr, self.x, ode(x=self.x, u=self.u, z=self.z, p=vertcat(self.p, self.v), t=self.t)["ode"])', '                return jtimes(expr, self.x, ode(x=self.x, u=self.u, z=self.z, p=vertcat(self.p, self.v), t=0)["ode"])', ['C16']),
+ ('chain-order', 'stage.py', "            helper_u = self.control(n_rows=n_rows, n_cols=n_cols, order=order - 1, scale=scale)", "            helper_u = self.control(n_rows=n_rows, n_cols=n_cols, order=max(order - 2,0), scale=scale)", ['C16']),
 ]
 
 def main():
